@@ -422,7 +422,7 @@ func (in *Interp) or(a, b Value) Value {
 func (in *Interp) unop(instr *ssa.UnOp, x Value) Value {
 	switch instr.Op {
 	case token.ARROW:
-		panic(unsupported("channel receive"))
+		return in.chanRecv(in.curFrame, x, instr.X.Type().Underlying().(*types.Chan).Elem(), instr.CommaOk)
 	case token.MUL:
 		if r, ok := x.(SymElemRef); ok {
 			return in.selectElem(r)
@@ -435,6 +435,7 @@ func (in *Interp) unop(instr *ssa.UnOp, x Value) Value {
 		if !ok {
 			panic(fmt.Sprintf("load through non-pointer %T", x))
 		}
+		in.raceRead(p, in.curFrame)
 		return load(deref(instr.X.Type()), p)
 	case token.NOT:
 		return in.not(x)
